@@ -16,7 +16,7 @@
 //   A-arc-mutex    `Mutex::new(v)` holds `v` (facade struct with the content as a field)
 //   A-nooverflow   n_tune + n_draws fits in usize (stated precondition)
 use ::std::sync::Arc;
-use vstd::std_specs::cmp::PartialEqSpec;
+use vstd::std_specs::cmp::PartialEqSpec;   // `eq_spec` in the specification of `<[T]>::contains`
 
 // ---- anyhow facade: `use anyhow::{Context, Result};`
 #[derive(Debug)]
